@@ -31,6 +31,8 @@ From V.lib Require Import Prelude PyFloat PyVal.
 From V.model Require Import SimpleTypeLib Props PropCatalogue.
 From V.proofs Require Import PyFloat_proofs SimpleTypeLib_proofs C11_instance Props_proofs C09_instance.
 From V.gen Require Import GenC11 GenC09.
+From V.model Require XmlTree.
+From V.proofs Require XmlTree_proofs.
 From Coq Require Import QArith Qabs.
 
 (** a setter changes nothing outside its declared footprint and keeps the state a tree *)
@@ -550,3 +552,140 @@ Proof. exact ex_font_size. Qed.
 Theorem C09_no_unknown_breaking : unknown_breaking = [].
 Proof. vm_compute. reflexivity. Qed.
 Print Assumptions C09_no_unknown_breaking.
+
+(** ---- save and re-open of any part: a concrete generic XML writer / reader ---- *)
+
+(** Save and re-open of ANY part.  Every getter of python-pptx is a function of the lxml element tree of a
+    part; a part is saved by serialize_part_xml and re-opened by pptx.oxml.parse_xml.  model/XmlTree.v is a
+    concrete generic writer (enc_doc: what libxml2 writes) and reader (dec_doc: what libxml2 reads under
+    remove_blank_text=True) of element trees, with no bound on depth, width, number of attributes or lengths,
+    tied to lxml byte for byte by the phase xml-codec of the check (checks/xmltree_phase.py).
+    wf_tree: names are qualified names, attribute names are distinct within an element, attribute values and
+    text are XML characters.  XmlTree.strict: no leaf holds an EMPTY text node (the parser never produces one;
+    XmlTree.canon turns such a leaf into the element without content, which is what the parser reads). *)
+Theorem C09_reopen_tree : forall t, XmlTree.wf_tree t = true ->
+  XmlTree.dec_doc (XmlTree.enc_doc t) = Some (XmlTree.canon t)
+  /\ XmlTree.dec_tree (XmlTree.enc_tree t) = Some (XmlTree.canon t)
+  /\ (XmlTree.strict t = true -> XmlTree.dec_doc (XmlTree.enc_doc t) = Some t /\ XmlTree.dec_tree (XmlTree.enc_tree t) = Some t).
+Proof. exact XmlTree_proofs.C09_reopen_tree_all. Qed.
+Print Assumptions C09_reopen_tree.
+
+Theorem C09_reopen_tree_cycles : forall n t, XmlTree.wf_tree t = true ->
+  XmlTree.xreopen_cycles (S n) t = Some (XmlTree.canon t)
+  /\ (XmlTree.strict t = true -> XmlTree.xreopen_cycles n t = Some t).
+Proof. exact XmlTree_proofs.C09_reopen_cycles_all. Qed.
+Print Assumptions C09_reopen_tree_cycles.
+
+Theorem C09_reopen_any_getter : forall (A : Type) (g : XmlTree.xtree -> A) t, XmlTree.wf_tree t = true ->
+  option_map g (XmlTree.dec_doc (XmlTree.enc_doc t)) = Some (g (XmlTree.canon t))
+  /\ (XmlTree.strict t = true -> option_map g (XmlTree.dec_doc (XmlTree.enc_doc t)) = Some (g t))
+  /\ ((forall u, g (XmlTree.canon u) = g u) -> option_map g (XmlTree.dec_doc (XmlTree.enc_doc t)) = Some (g t)).
+Proof. exact XmlTree_proofs.C09_any_getter_all. Qed.
+Print Assumptions C09_reopen_any_getter.
+
+Theorem C09_reopen_injective : forall t1 t2, XmlTree.wf_tree t1 = true -> XmlTree.wf_tree t2 = true ->
+  (XmlTree.enc_tree t1 = XmlTree.enc_tree t2 -> XmlTree.canon t1 = XmlTree.canon t2)
+  /\ (XmlTree.strict t1 = true -> XmlTree.strict t2 = true ->
+      (XmlTree.enc_tree t1 = XmlTree.enc_tree t2 -> t1 = t2) /\ (XmlTree.enc_doc t1 = XmlTree.enc_doc t2 -> t1 = t2)).
+Proof. exact XmlTree_proofs.C09_injective_all. Qed.
+Print Assumptions C09_reopen_injective.
+
+(** non-vacuity: a p:sp with attribute values that need every escape (ampersand, less-than, greater-than,
+    quote, TAB, CR, LF, edge blanks, a non-ASCII and an astral character), a blank-only a:t, an a:t holding
+    markup characters, a CR and the CDATA-end sequence, and an a:t without content *)
+Definition c09_ex_sp : XmlTree.xtree :=
+  (XmlTree.XNode [112; 58; 115; 112]
+    [([120; 109; 108; 110; 115; 58; 112], [104; 116; 116; 112; 58; 47; 47; 115; 99; 104; 101; 109; 97; 115; 46; 111; 112; 101; 110; 120; 109; 108; 102; 111; 114; 109; 97; 116; 115; 46; 111; 114; 103; 47; 112; 114; 101; 115; 101; 110; 116; 97; 116; 105; 111; 110; 109; 108; 47; 50; 48; 48; 54; 47; 109; 97; 105; 110]); ([120; 109; 108; 110; 115; 58; 97], [104; 116; 116; 112; 58; 47; 47; 115; 99; 104; 101; 109; 97; 115; 46; 111; 112; 101; 110; 120; 109; 108; 102; 111; 114; 109; 97; 116; 115; 46; 111; 114; 103; 47; 100; 114; 97; 119; 105; 110; 103; 109; 108; 47; 50; 48; 48; 54; 47; 109; 97; 105; 110])]
+    [(XmlTree.XNode [112; 58; 110; 118; 83; 112; 80; 114]
+        []
+        [(XmlTree.XNode [112; 58; 99; 78; 118; 80; 114]
+            [([105; 100], [50]); ([110; 97; 109; 101], [81; 38; 65; 32; 60; 34; 84; 105; 116; 108; 101; 34; 62; 9; 49; 13; 10]); ([100; 101; 115; 99; 114], [32; 32; 99; 97; 102; 233; 32; 128512; 32])]
+            []);
+         (XmlTree.XNode [112; 58; 99; 78; 118; 83; 112; 80; 114]
+            [([116; 120; 66; 111; 120], [49])]
+            []);
+         (XmlTree.XNode [112; 58; 110; 118; 80; 114]
+            []
+            [])]);
+     (XmlTree.XNode [112; 58; 115; 112; 80; 114]
+        []
+        [(XmlTree.XNode [97; 58; 120; 102; 114; 109]
+            [([114; 111; 116], [45; 53; 52; 48; 48; 48; 48; 48])]
+            [(XmlTree.XNode [97; 58; 111; 102; 102]
+                [([120], [48]); ([121], [57; 49; 52; 52; 48; 48])]
+                []);
+             (XmlTree.XNode [97; 58; 101; 120; 116]
+                [([99; 120], [57; 49; 52; 52; 48; 48]); ([99; 121], [48])]
+                [])])]);
+     (XmlTree.XNode [112; 58; 116; 120; 66; 111; 100; 121]
+        []
+        [(XmlTree.XNode [97; 58; 98; 111; 100; 121; 80; 114]
+            []
+            []);
+         (XmlTree.XNode [97; 58; 112]
+            []
+            [(XmlTree.XNode [97; 58; 114]
+                []
+                [(XmlTree.XNode [97; 58; 114; 80; 114]
+                    [([108; 97; 110; 103], [101; 110; 45; 85; 83]); ([98], [49])]
+                    []);
+                 (XmlTree.XLeaf [97; 58; 116]
+                    []
+                    [32; 9; 32])]);
+             (XmlTree.XNode [97; 58; 114]
+                []
+                [(XmlTree.XLeaf [97; 58; 116]
+                    []
+                    [97; 32; 60; 32; 98; 32; 38; 38; 32; 99; 32; 62; 32; 100; 13; 93; 93; 62])]);
+             (XmlTree.XNode [97; 58; 114]
+                []
+                [(XmlTree.XNode [97; 58; 116]
+                    []
+                    [])])])])])%N.
+Example C09_reopen_tree_nonvacuous :
+  XmlTree.wf_tree c09_ex_sp = true /\ XmlTree.strict c09_ex_sp = true
+  /\ XmlTree.dec_doc (XmlTree.enc_doc c09_ex_sp) = Some c09_ex_sp
+  /\ XmlTree.xreopen_cycles 3 c09_ex_sp = Some c09_ex_sp.
+Proof. vm_compute. repeat split; reflexivity. Qed.
+Print Assumptions C09_reopen_tree_nonvacuous.
+(** the two spellings of an a:t without text: the empty text node is written with a start and an end tag and
+    read back as the element without content *)
+Definition c09_ex_empty : XmlTree.xtree :=
+  (XmlTree.XNode [112; 58; 116; 120; 66; 111; 100; 121]
+    [([120; 109; 108; 110; 115; 58; 112], [104; 116; 116; 112; 58; 47; 47; 115; 99; 104; 101; 109; 97; 115; 46; 111; 112; 101; 110; 120; 109; 108; 102; 111; 114; 109; 97; 116; 115; 46; 111; 114; 103; 47; 112; 114; 101; 115; 101; 110; 116; 97; 116; 105; 111; 110; 109; 108; 47; 50; 48; 48; 54; 47; 109; 97; 105; 110]); ([120; 109; 108; 110; 115; 58; 97], [104; 116; 116; 112; 58; 47; 47; 115; 99; 104; 101; 109; 97; 115; 46; 111; 112; 101; 110; 120; 109; 108; 102; 111; 114; 109; 97; 116; 115; 46; 111; 114; 103; 47; 100; 114; 97; 119; 105; 110; 103; 109; 108; 47; 50; 48; 48; 54; 47; 109; 97; 105; 110])]
+    [(XmlTree.XNode [97; 58; 112]
+        []
+        [(XmlTree.XNode [97; 58; 114]
+            []
+            [(XmlTree.XLeaf [97; 58; 116]
+                []
+                [])])])])%N.
+Definition c09_ex_empty_read : XmlTree.xtree :=
+  (XmlTree.XNode [112; 58; 116; 120; 66; 111; 100; 121]
+    [([120; 109; 108; 110; 115; 58; 112], [104; 116; 116; 112; 58; 47; 47; 115; 99; 104; 101; 109; 97; 115; 46; 111; 112; 101; 110; 120; 109; 108; 102; 111; 114; 109; 97; 116; 115; 46; 111; 114; 103; 47; 112; 114; 101; 115; 101; 110; 116; 97; 116; 105; 111; 110; 109; 108; 47; 50; 48; 48; 54; 47; 109; 97; 105; 110]); ([120; 109; 108; 110; 115; 58; 97], [104; 116; 116; 112; 58; 47; 47; 115; 99; 104; 101; 109; 97; 115; 46; 111; 112; 101; 110; 120; 109; 108; 102; 111; 114; 109; 97; 116; 115; 46; 111; 114; 103; 47; 100; 114; 97; 119; 105; 110; 103; 109; 108; 47; 50; 48; 48; 54; 47; 109; 97; 105; 110])]
+    [(XmlTree.XNode [97; 58; 112]
+        []
+        [(XmlTree.XNode [97; 58; 114]
+            []
+            [(XmlTree.XNode [97; 58; 116]
+                []
+                [])])])])%N.
+Example C09_reopen_tree_empty_text :
+  XmlTree.wf_tree c09_ex_empty = true /\ XmlTree.strict c09_ex_empty = false
+  /\ XmlTree.canon c09_ex_empty = c09_ex_empty_read
+  /\ XmlTree.dec_doc (XmlTree.enc_doc c09_ex_empty) = Some c09_ex_empty_read
+  /\ XmlTree.enc_doc c09_ex_empty <> XmlTree.enc_doc c09_ex_empty_read.
+Proof. vm_compute. repeat split; try reflexivity. discriminate. Qed.
+Print Assumptions C09_reopen_tree_empty_text.
+(** the hypothesis is needed: a text holding U+0000 (which lxml refuses to store) is not well formed, and
+    what the writer would write for it is refused by the reader *)
+Definition c09_ex_nul : XmlTree.xtree :=
+  (XmlTree.XNode [112; 58; 115; 112]
+    [([120; 109; 108; 110; 115; 58; 112], [104; 116; 116; 112; 58; 47; 47; 115; 99; 104; 101; 109; 97; 115; 46; 111; 112; 101; 110; 120; 109; 108; 102; 111; 114; 109; 97; 116; 115; 46; 111; 114; 103; 47; 112; 114; 101; 115; 101; 110; 116; 97; 116; 105; 111; 110; 109; 108; 47; 50; 48; 48; 54; 47; 109; 97; 105; 110])]
+    [(XmlTree.XLeaf [97; 58; 116]
+        []
+        [97; 0; 98])])%N.
+Example C09_reopen_tree_refuses_nul :
+  XmlTree.wf_tree c09_ex_nul = false /\ XmlTree.dec_doc (XmlTree.enc_doc c09_ex_nul) = None.
+Proof. vm_compute. split; reflexivity. Qed.
+Print Assumptions C09_reopen_tree_refuses_nul.
